@@ -259,6 +259,24 @@ def run(facts, res):
                 if lists and de in [y[2] for y in walk(lists[0][2][1]) if y[0] == "const" and y[1] == "str"] and \
                         not (set(names) & {"take", "skip", "filter", "step_by", "take_while", "skip_while"}):
                     ok = True
+        if not ok:
+            # pipeline form: `list.iter().filter_map(|item| DeltaId::from(item).ok())...`: the parser is applied, inside a closure,
+            # to the element of a chain that starts at the listing and has no selecting adaptor upstream
+            for cb in facts.closures_of(b.path):
+                for bi, t in cb.calls():
+                    if t.callee is None or t.callee.target() != "melda::DeltaId::from":
+                        continue
+                    if not any(x[0] == "param" and x[1] == 2 for x in walk(arg_term(cb, t, 0, 12))):
+                        continue
+                    for cs in cg.callers_of(cb.path):
+                        if cb not in cs.closures or not cs.term.args:
+                            continue
+                        up = arg_term(cs.body, cs.term, 0, 40)
+                        names = [callee_name(x) for x in iter_chain(up)]
+                        lists = [x for x in walk(up) if x[0] == "call" and callee_name(x) == R.name("lister")]
+                        if lists and de in [y[2] for y in walk(lists[0][2][1]) if y[0] == "const" and y[1] == "str"] and \
+                                not (set(names) & {"take", "skip", "filter", "step_by", "take_while", "skip_while", "filter_map", "rev", "nth"}):
+                            ok = True
         res.instance("L4", "%s parses every name of the complete block listing: %s" % (name, ok), b.loc())
         if not ok:
             res.violation("L4", "%s|listing-not-complete" % name, "%s does not parse every name returned by list_raw_items(DELTA_EXTENSION)" % name, b.loc())
